@@ -25,6 +25,10 @@ INNER = {
     # a module file next to a same-named sub-package (the package wins for CPython), and a sub-package whose files sort on both sides of __init__.py
     "sub.py": "shadowed = 1\n", "pk2/__init__.py": "", "pk2/aaa.py": "", "pk2/Zed.py": "", "pk2/_x.py": "",
 }
+# directed only (kept out of the random key list above so the random layouts stay what they were): a sub-package and a module whose names start with
+# two underscores -- CPython's walker lists them like any other; only `__pycache__` is not a package
+DUNDER = {"sub/__compat__/__init__.py": "", "sub/__compat__/shim.py": "c = 1\n", "__future_mod__.py": "f = 1\n"}
+INNER_ALL = {**INNER, **DUNDER}
 
 
 def build(root, forms, inner_sets):
@@ -43,7 +47,7 @@ def build(root, forms, inner_sets):
             for rel in inner_sets[i]:
                 f = d / rel
                 f.parent.mkdir(parents=True, exist_ok=True)
-                f.write_text(INNER[rel])
+                f.write_text(INNER_ALL[rel])
     return [str(Path(root) / f"sp{i}") for i in range(len(forms))]
 
 
@@ -194,6 +198,8 @@ def cases(seed, n_random):
     for forms in (("bare_dir", "bare_dir"), ("package", "none"), ("bare_dir", "none"), ("none", "package")):
         yield forms, (["sub/__init__.py", "sub/leaf.py", "sub.py"], pk2 + ["other.py"])
         yield forms, (pk2 + ["sub.py", "sub/__init__.py", "sub/leaf.py"], ["mod.py"])
+    for forms in (("package", "none"), ("bare_dir", "package"), ("stub_package", "none")):
+        yield forms, (["sub/__init__.py", "sub/leaf.py", "__pycache__/mod.cpython-312.pyc"] + list(DUNDER), ["mod.py"] + list(DUNDER)[:2])
     keys = list(INNER)
     for _ in range(n_random):
         forms = (rnd.choice(TOP_FORMS), rnd.choice(TOP_FORMS))
